@@ -441,6 +441,11 @@ def run_extra(repo: Repo, rep: Report) -> None:
                     for t in tg:
                         if isinstance(t, ast.Attribute) and isinstance(t.value, ast.Name) and t.value.id == "self":
                             assigns.setdefault(t.attr, []).append(n.value)
+                        # parallel assignment: self.args, rest = first.args, rest[1:]
+                        if isinstance(t, ast.Tuple) and isinstance(n.value, ast.Tuple) and len(t.elts) == len(n.value.elts):
+                            for tt, vv in zip(t.elts, n.value.elts):
+                                if isinstance(tt, ast.Attribute) and isinstance(tt.value, ast.Name) and tt.value.id == "self":
+                                    assigns.setdefault(tt.attr, []).append(vv)
                 if isinstance(n, ast.AugAssign) and isinstance(n.target, ast.Attribute) and isinstance(n.target.value, ast.Name) and n.target.value.id == "self":
                     muts.append((n.target.attr, n))
                 if isinstance(n, ast.Call) and isinstance(n.func, ast.Attribute) and n.func.attr in ("append", "extend", "insert", "remove", "pop", "sort", "reverse", "clear") \
